@@ -36,6 +36,41 @@ def check_cases(chk, cases):
                           (kind, fmt, codec.fdiff(r["dec"], v), r["consumed"], len(bj)), dict(case, junk=[37, 11]), True)
 
 
+def check_noncanonical(chk):
+    """conformant bytes another writer might produce: segment tables that are not sorted by start frame, or whose runs
+    are not maximal.  The library must decode exactly what the layout-driven decoder (Fmt.dec over Blocks.v) extracts
+    from the same bytes, consuming the same number of bytes."""
+    from harness import c05
+    rng = common.rng_for(chk.seed, "C06noncanon")
+    base = []
+    for i in range(60 if chk.tier == "quick" else 600):
+        kind = list(c05.RL_KINDS)[i % 4]
+        n = rng.choice((4, 7, 12, 30))
+        base.append(c05.one_track_block(kind, rng, blocks.rmask(rng, n), ntracks=rng.choice((1, 2))))
+    encs = codec.model_eval(base, want=("enc",))
+    items, meta = [], []
+    for (kind, fmt, v), m in zip(base, encs):
+        for how in ("reversed", "rotated", "split"):
+            b2 = codec.rewrite_segments(kind, fmt, v, m["enc"], how)
+            if b2 != m["enc"]:
+                items.append((kind, fmt, b2))
+                meta.append((kind, fmt, v, how))
+    md = codec.model_dec_bytes(items)
+    for (kind, fmt, b2), (k2, f2, v, how), m in zip(items, meta, md):
+        chk.note_case(("non-canonical", kind, how, repr(v)[:300]), True)
+        chk.count("non-canonical segment table: " + how)
+        what = {"kind": kind, "fmt": fmt, "canonical_value": v, "segment_tables": how, "bytes_hex": b2.hex() if len(b2) < 6000 else None}
+        if m is None:
+            chk.count("non-canonical: the layout-driven decoder rejects it (skipped)")
+            continue
+        r = codec.impl_decode(kind, fmt, b2)
+        if r.get("dec") is None:
+            chk.violation("%s: layout-conformant bytes with %s segment tables are rejected: %s" % (kind, how, r.get("dec_exc")), what, True)
+        elif r["dec"] != m[0] or r["consumed"] != m[1]:
+            chk.violation("%s: layout-conformant bytes with %s segment tables decode differently from the layout-driven decoder: %s "
+                          "(consumed %d, layout %d)" % (kind, how, codec.fdiff(r["dec"], m[0]), r["consumed"], m[1]), what, True)
+
+
 def check_capture(chk):
     if not os.path.exists(common.CAPTURE):
         chk.count("capture missing")
@@ -99,7 +134,7 @@ def check_container_bytes(chk):
 def run(chk):
     chk.rule = ("valid blocks of all nine types (as C01): exact bytes of _write against the layout-driven encoder "
                 "(Fmt.enc over Blocks.v), and bytes produced by the free encoder with junk (37*off+11 mod 256) in every "
-                "don't-care position fed to _build; the 8 BTS capture blocks: decoded fields equal the layout-driven "
+                "don't-care position fed to _build; conformant bytes whose segment tables are not sorted / not maximal (reversed, rotated, split runs) against the layout-driven decoder; the 8 BTS capture blocks: decoded fields equal the layout-driven "
                 "decoder's, consumed = jump-table size, and every byte outside the don't-care positions reproduced by "
                 "re-encoding; file header / table entries against Entry.v; also: blocks built, used (sized / encoded / compared / printed), then edited IN PLACE to another content of the same shape and used again; blocks built from arrays with the same values but another memory layout (column-major, strided, reversed, big-endian, read-only, unaligned); non-trivial = >=1 item and (gap or >=2 items)")
     corpus = codec.load_corpus("C06")
@@ -110,6 +145,7 @@ def run(chk):
     check_cases(chk, codec.threshold_cases(chk))
     codec.check_inplace(chk, "C06", 200 if chk.tier == "quick" else 3000)
     codec.check_layouts(chk, "C06", 240 if chk.tier == "quick" else 3000)
+    check_noncanonical(chk)
     check_capture(chk)
     check_container_bytes(chk)
 
